@@ -7,7 +7,7 @@
 From Coq Require Import List NArith ZArith Bool Lia ZifyN ZifyBool.
 From V Require Import C12.Model C12.Proofs C13.Model C13.Proofs C13.Proofs_Votes C13.Proofs_Commit
   C13.Proofs_Life C13.Proofs_Resume C13.Proofs_Replay C13.Proofs_Obs C13.Proofs_ObsStep C13.Proofs_Cells
-  C13.Proofs_Shape C13.Proofs_Wal C13.Proofs_Crash C13.Proofs_Fut C13.Proofs_Upd C13.Proofs_Core.
+  C13.Proofs_Shape C13.Proofs_Wal C13.Proofs_Crash C13.Proofs_MidGen C13.Proofs_Fut C13.Proofs_Upd C13.Proofs_Core.
 Import ListNotations.
 Open Scope N_scope.
 
@@ -109,6 +109,18 @@ Section Inv.
     eapply obs_eq_trans; [apply (upds_split (Hs + 1) F _ HM HG)|].
     rewrite C1, F2. apply upds_obs. apply obs_eq_sym. exact R1.
   Qed.
+  (* what is on disk at a kill point is a log a recovery can work with *)
+  Definition DiskGood (pre : list effect) : Prop :=
+    0 < resume_height h0 pre /\ prunes_below (resume_height h0 pre) (disk D0 pre) /\
+    Forall (fun x => is_msg x = true) (futs (resume_height h0 pre) (rents (disk D0 pre))) /\
+    core_disc E (resume_height h0 pre) (rents (disk D0 pre)) = true.
+  Lemma DiskGood_ext : forall pre pre', disk D0 pre' = disk D0 pre ->
+    resume_height h0 pre' = resume_height h0 pre -> DiskGood pre -> DiskGood pre'.
+  Proof. intros pre pre' Hd Hr G. unfold DiskGood in *. rewrite Hd, Hr. exact G. Qed.
+
+  Lemma ok_input_scal : forall a b i, scal a = scal b -> ok_input a i = ok_input b i.
+  Proof. intros a b i H. destruct (scal_h _ _ H) as [_ [St _]]. destruct i; simpl; auto. Qed.
+
   (* ---------- the boundary invariant ---------- *)
   Record BI (d : dstate) (effs : list effect) : Prop := mkBI {
     b_wf : WF (d_sm d);
@@ -122,8 +134,19 @@ Section Inv.
     b_recs : rents (w_durable (d_wal d) ++ w_pending (d_wal d)) = LL effs;
     b_prunes : prunes_below (s_h (d_sm d)) (w_durable (d_wal d) ++ w_pending (d_wal d));
     b_noprune : no_prune (w_pending (d_wal d));
-    b_crash : forall j, CrashCov E h0 D0 E0 (firstn j effs)
+    b_crash : forall j, CrashCov E h0 D0 E0 (firstn j effs);
+    b_disc : core_disc E (s_h (d_sm d)) (LL effs) = true;
+    b_disk : forall j, DiskGood (firstn j effs)
   }.
+
+  Lemma prefixes_any : forall (Good : list effect -> Prop) effs es,
+    (forall j, Good (firstn j effs)) -> (forall j, Good (effs ++ firstn j es)) ->
+    forall j, Good (firstn j (effs ++ es)).
+  Proof.
+    intros Good effs es H1 H2 j. destruct (Nat.le_gt_cases j (length effs)) as [L|G].
+    - rewrite firstn_app_le by exact L. apply H1.
+    - rewrite firstn_app_ge by lia. apply H2.
+  Qed.
 
   Lemma BI_height : forall d effs, BI d effs -> s_h (d_sm d) = resume_height h0 effs /\ 0 < s_h (d_sm d).
   Proof.
@@ -148,13 +171,16 @@ Section Inv.
     - constructor.
     - constructor.
     - intros j. rewrite firstn_nil. unfold CrashCov. rewrite ?HE. split; [intros n2 k v Hin|intros k v Hin]; simpl in Hin; destruct k; contradiction.
+    - reflexivity.
+    - intros j. rewrite firstn_nil. unfold DiskGood, disk. rewrite ?HD. cbn [resume_height commits_in flat_map fold_left apply_effects w_durable rents].
+      split; [lia|]. split; [constructor|]. split; [constructor|reflexivity].
   Qed.
 
   Lemma BI_quiet : forall s w n effs i s' n',
     BI (mkD s w n) effs -> step_facts E s i s' [] -> obs_eq s s' -> CInv E h0 (mkD s' w n') effs ->
     BI (mkD s' w n') effs.
   Proof.
-    intros s w n effs i s' n' B SF Ho CI. destruct B as [Bwf Bnv Bci Bms Bli Bco Bvh Bwal Brec Bpr Bnp Bcr].
+    intros s w n effs i s' n' B SF Ho CI. destruct B as [Bwf Bnv Bci Bms Bli Bco Bvh Bwal Brec Bpr Bnp Bcr Bdc Bdk].
     cbn [d_sm d_wal] in *.
     assert (Eh : s_h s' = s_h s) by (rewrite (sf_h _ _ _ _ _ SF); simpl; lia).
     constructor; cbn [d_sm d_wal]; rewrite ?Eh; auto.
@@ -172,7 +198,7 @@ Section Inv.
   Proof.
     intros s w n effs i s' n' e B Hst SF Hi Me Hlt CI.
     destruct (BI_height _ _ B) as [Hres Hpos]. cbn [d_sm] in Hres, Hpos.
-    destruct B as [Bwf Bnv Bci Bms Bli Bco Bvh Bwal Brec Bpr Bnp Bcr]. cbn [d_sm d_wal] in *.
+    destruct B as [Bwf Bnv Bci Bms Bli Bco Bvh Bwal Brec Bpr Bnp Bcr Bdc Bdk]. cbn [d_sm d_wal] in *.
     assert (PBd : prunes_below (s_h s) (w_durable w)).
     { unfold prunes_below in *. apply Forall_app in Bpr. apply Bpr. }
     assert (Wa : wal_append e w = mkWal (w_durable w) (w_pending w ++ [REntry e])).
@@ -211,13 +237,20 @@ Section Inv.
       + rewrite resume_height_app. reflexivity.
       + intros k v X. rewrite Vs in X. exact X.
       + specialize (Bcr (length effs)). rewrite firstn_all in Bcr. exact Bcr.
+    - unfold core_disc in *. rewrite Ce. exact Bdc.
+    - apply prefixes_any; [exact Bdk|].
+      intros [|j]; cbn [firstn]; [rewrite app_nil_r; specialize (Bdk (length effs)); rewrite firstn_all in Bdk; exact Bdk|].
+      rewrite firstn_nil. apply (DiskGood_ext effs).
+      + rewrite (disk_snoc D0), <- Bwal. cbn [apply_effect]. rewrite Wa. unfold disk. rewrite <- Bwal. reflexivity.
+      + rewrite resume_height_app. reflexivity.
+      + specialize (Bdk (length effs)). rewrite firstn_all in Bdk. exact Bdk.
   Qed.
   (* the facts about a logged call of the current height that the invariants use *)
   Lemma logged_ctx : forall s w n effs i s' n' e rest,
     BI (mkD s w n) effs ->
     sm_step E s n i = (s', n', wal_of e :: rest) ->
     step_facts E s i s' (wal_of e :: rest) ->
-    input_of_entry e = i -> ht e = s_h s ->
+    input_of_entry e = i -> ht e = s_h s -> ok_input s i = true ->
     let Hs := s_h s in let A' := LL effs ++ [e] in
     let D1 := (w_durable w ++ w_pending w) ++ [REntry e] in
     0 < Hs /\
@@ -229,11 +262,12 @@ Section Inv.
                  In v (votes_of k (snd (core E Hs A')))) /\
     (has_commit (wal_of e :: rest) = true ->
        s_h s' = Hs + 1 /\ obs_eq s' (upds cE (fst (fst (core E (Hs + 1) A'))) (futs (Hs + 1) A'))) /\
-    resume_height h0 effs = Hs /\ disk D0 effs = w_durable w.
+    resume_height h0 effs = Hs /\ disk D0 effs = w_durable w /\
+    core_disc E Hs A' = true /\ core_disc E (Hs + 1) A' = true.
   Proof.
-    intros s w n effs i s' n' e rest B Hst SF Hi He Hs A' D1.
+    intros s w n effs i s' n' e rest B Hst SF Hi He Hok Hs A' D1.
     destruct (BI_height _ _ B) as [Hres Hpos]. cbn [d_sm] in Hres, Hpos.
-    destruct B as [Bwf Bnv Bci Bms Bli Bco Bvh Bwal Brec Bpr Bnp Bcr]. cbn [d_sm d_wal] in *.
+    destruct B as [Bwf Bnv Bci Bms Bli Bco Bvh Bwal Brec Bpr Bnp Bcr Bdc Bdk]. cbn [d_sm d_wal] in *.
     assert (PBd : prunes_below (s_h s) (w_durable w)).
     { unfold prunes_below in *. apply Forall_app in Bpr. apply Bpr. }
     destruct (logged_next s n i (LL effs) e s' n' _ Bli Bms He Hi Hst) as [LN1 [LN2 LN3]].
@@ -254,23 +288,36 @@ Section Inv.
         destruct Hc as [a [Hin Ha]]. destruct a; try discriminate.
         rewrite (col_commit_hs _ p (sf_col _ _ _ _ _ SF) Hin) in Z. simpl in Z. unfold Hs. lia. }
       split; [exact Eh|]. apply (commit_next Hs A' s' LN1 Ms Eh). apply (sf_reset _ _ _ _ _ SF Hc). }
-    split; [symmetry; exact Hres|]. unfold disk. rewrite <- Bwal. reflexivity.
+    split; [symmetry; exact Hres|]. split; [unfold disk; rewrite <- Bwal; reflexivity|]. split.
+    { (* the discipline of the extended core *)
+      unfold core_disc in *. unfold A'. unfold Hs in *.
+      assert (Ce : curs (s_h s) (LL effs ++ [e]) = curs (s_h s) (LL effs) ++ [e]).
+      { rewrite curs_app. unfold curs at 2. simpl. destruct (ht e =? s_h s) eqn:E1; [reflexivity|lia]. }
+      rewrite Ce, sm_disc_app, Bdc. cbn [andb].
+      assert (Scx : scal (fst (fst (sm_replay_acts E (init_state (s_h s)) 0 (curs (s_h s) (LL effs))))) = scal s).
+      { destruct Bli as [X _]. unfold core in X. rewrite upds_scal in X. symmetry. exact X. }
+      destruct (sm_replay_acts E (init_state (s_h s)) 0 (curs (s_h s) (LL effs))) as [[x nx] ax]. cbn [fst snd] in *.
+      destruct (scal_h _ _ Scx) as [Shx _]. cbn [sm_disc]. fold ht. rewrite He, Shx, N.ltb_irrefl.
+      rewrite Hi, (ok_input_scal x s i Scx), Hok. cbn [andb].
+      destruct (sm_step E x nx i) as [[x1 n1] a1]. reflexivity. }
+    unfold core_disc. apply sm_disc_msgs. rewrite <- (curs_futs Hs (Hs + 1) A') by lia.
+    apply Forall_forall. intros x Hx. unfold curs in Hx. apply filter_In in Hx. rewrite Forall_forall in Ms. apply Ms. apply Hx.
   Qed.
 
   Lemma BI_logged : forall s w n effs i s' n' e rest,
     BI (mkD s w n) effs ->
     sm_step E s n i = (s', n', wal_of e :: rest) ->
     step_facts E s i s' (wal_of e :: rest) -> all_vis rest ->
-    input_of_entry e = i -> ht e = s_h s ->
+    input_of_entry e = i -> ht e = s_h s -> ok_input s i = true ->
     CInv E h0 (mkD s' (fst (fst (exec false w (wal_of e :: rest)))) n')
          (effs ++ snd (fst (exec false w (wal_of e :: rest)))) ->
     BI (mkD s' (fst (fst (exec false w (wal_of e :: rest)))) n')
        (effs ++ snd (fst (exec false w (wal_of e :: rest)))).
   Proof.
-    intros s w n effs i s' n' e rest B Hst SF AV Hi He CI.
-    destruct (logged_ctx s w n effs i s' n' e rest B Hst SF Hi He)
-      as [Hpos [Wa [PB1 [Rn [Ms [Live [Cov [Fresh [Hres Hdisk]]]]]]]]].
-    destruct B as [Bwf Bnv Bci Bms Bli Bco Bvh Bwal Brec Bpr Bnp Bcr]. cbn [d_sm d_wal] in *.
+    intros s w n effs i s' n' e rest B Hst SF AV Hi He Hok CI.
+    destruct (logged_ctx s w n effs i s' n' e rest B Hst SF Hi He Hok)
+      as [Hpos [Wa [PB1 [Rn [Ms [Live [Cov [Fresh [Hres [Hdisk [Dc1 Dc2]]]]]]]]]]].
+    destruct B as [Bwf Bnv Bci Bms Bli Bco Bvh Bwal Brec Bpr Bnp Bcr Bdc Bdk]. cbn [d_sm d_wal] in *.
     set (Hs := s_h s) in *. set (dur := w_durable w) in *. set (pend := w_pending w) in *.
     set (D1 := (dur ++ pend) ++ [REntry e]) in *. set (A' := LL effs ++ [e]) in *.
     assert (Col : col (wal_of e :: rest) = true) by apply (sf_col _ _ _ _ _ SF).
@@ -298,6 +345,31 @@ Section Inv.
       - cbn [w_durable w_pending]. unfold D1. rewrite app_assoc. reflexivity.
       - cbn [w_pending]. unfold no_prune in *. apply Forall_app. split; [exact Bnp|]. constructor; [exact I|constructor]. }
     destruct (exec_mid E h0 Hh0 D0 E0 effs Hs D1 rest Hpos VH Cov1 CH PB1 rest _ _ AV Crest (fun a H => H) M0) as [X1 [X2 [X3 X4]]].
+    assert (XD : forall j, DiskGood ((effs ++ [Append e]) ++ firstn j (snd (fst (exec false (mkWal dur (pend ++ [REntry e])) rest))))).
+    { assert (Gfl : forall pre, disk D0 pre = D1 -> resume_height h0 pre = Hs -> DiskGood pre).
+      { intros pre Hd Hr. unfold DiskGood. rewrite Hd, Hr, Rn. auto. }
+      assert (Gco : forall pre, (exists p, In (ACommit p) rest) ->
+                (disk D0 pre = D1 \/ disk D0 pre = D1 ++ [RPrune Hs]) -> resume_height h0 pre = Hs + 1 -> DiskGood pre).
+      { intros pre _ Hd Hr. unfold DiskGood. rewrite Hr.
+        assert (X : rents (disk D0 pre) = A' /\ prunes_below (Hs + 1) (disk D0 pre)).
+        { destruct Hd as [-> | ->].
+          - split; [exact Rn|apply (prunes_below_mono h0 Hh0 Hs); [lia|exact PB1]].
+          - split; [rewrite rents_app, Rn; simpl; apply app_nil_r|].
+            unfold prunes_below. apply Forall_app. split.
+            + apply (prunes_below_mono h0 Hh0 Hs); [lia|exact PB1].
+            + constructor; [lia|constructor]. }
+        destruct X as [X1' X2']. rewrite X1'. split; [lia|]. split; [exact X2'|]. split; [|exact Dc2].
+        apply (futs_msgs_sub Hs (Hs + 1) A'); [lia|exact Ms]. }
+      apply (exec_mid_gen h0 D0 Hs D1 rest DiskGood Hpos DiskGood_ext Gfl Gco CH PB1 rest _ _ AV Crest (fun a H => H)).
+      constructor.
+      - apply (DiskGood_ext effs).
+        + rewrite (disk_snoc D0), <- Bwal. cbn [apply_effect]. rewrite Wa. exact (eq_sym Hdisk).
+        + rewrite resume_height_app. reflexivity.
+        + specialize (Bdk (length effs)). rewrite firstn_all in Bdk. exact Bdk.
+      - rewrite apply_effects_app, <- Bwal. cbn [apply_effects fold_left apply_effect]. symmetry. exact Wa.
+      - rewrite resume_height_app. exact Hres.
+      - cbn [w_durable w_pending]. unfold D1. rewrite app_assoc. reflexivity.
+      - cbn [w_pending]. unfold no_prune in *. apply Forall_app. split; [exact Bnp|]. constructor; [exact I|constructor]. }
     pose proof (exec_vis_apps h0 Hh0 rest (mkWal dur (pend ++ [REntry e])) AV) as NoApp.
     pose proof (exec_wal false rest (mkWal dur (pend ++ [REntry e]))) as Wf.
     destruct (exec false (mkWal dur (pend ++ [REntry e])) rest) as [[wf more] com]. cbn [fst snd] in *.
@@ -313,6 +385,10 @@ Section Inv.
     { apply (crash_prefixes E h0 Hh0 D0 E0); [exact Bcr|]. intros [|j]; [rewrite app_nil_r; specialize (Bcr (length effs)); rewrite firstn_all in Bcr; exact Bcr|].
       cbn [firstn]. change (effs ++ Append e :: firstn j more) with (effs ++ [Append e] ++ firstn j more).
       rewrite app_assoc. apply X1. }
+    assert (Disk' : forall j, DiskGood (firstn j (effs ++ Append e :: more))).
+    { apply prefixes_any; [exact Bdk|]. intros [|j]; [rewrite app_nil_r; specialize (Bdk (length effs)); rewrite firstn_all in Bdk; exact Bdk|].
+      cbn [firstn]. change (effs ++ Append e :: firstn j more) with (effs ++ [Append e] ++ firstn j more).
+      rewrite app_assoc. apply XD. }
     assert (Wal' : wf = apply_effects (mkWal D0 []) (effs ++ Append e :: more)).
     { rewrite Wf, EA, apply_effects_app. f_equal. apply (m_wal _ _ _ _ _ _ _ _ _ _ M0). }
     destruct com.
@@ -337,6 +413,8 @@ Section Inv.
         * constructor; [lia|constructor].
       + rewrite Y1. constructor.
       + exact Crash'.
+      + exact Dc2.
+      + exact Disk'.
     - destruct (X3 eq_refl) as [Y1 [Y2 Y3]]. rewrite <- EA in Y3.
       assert (Eh : s_h s' = Hs) by (rewrite Hnew; exact Y3).
       constructor; cbn [d_sm d_wal]; rewrite ?Eh, ?Ap.
@@ -352,6 +430,8 @@ Section Inv.
       + rewrite Y1. exact PB1.
       + exact Y2.
       + exact Crash'.
+      + exact Dc1.
+      + exact Disk'.
   Qed.
 
   Lemma BI_step : forall d i effs, BI d effs -> good_step E d i = true ->
